@@ -304,6 +304,10 @@ def tlc_schedules(ctx, depth, total, cap=4):
     return scheds
 
 
+HELD_ALL = sum(([{"op": "feed_all"}, {"op": "work"}, {"op": "work"}] for _ in range(12)), []) + \
+    [{"op": "close_all_if_done"}, {"op": "work"}, {"op": "work"}]
+
+
 def make_specs(ctx, table, scheds, nrandom, tags, sched_stride, probes_close=True):
     """One group per table entry: ref, then schedule replays (if entry.sched), then random drip runs."""
     specs = []
@@ -320,6 +324,10 @@ def make_specs(ctx, table, scheds, nrandom, tags, sched_stride, probes_close=Tru
         base["gid"] = gid
         specs.append(dict(base, mode="ref", id=f"{gid}:ref", seed=1))
         k = 0
+        if probes_close and ent["close_ok"] and not ent.get("extra_sched") and not ent.get("infinite"):
+            # every block once with its input(s) ending while the outputs are full (never drained
+            # until the end): whatever it still holds must come out before its eof() turns true
+            specs.append(dict(base, mode="sched", sched=HELD_ALL, id=f"{gid}:h", seed=1, close=True))
         if ent.get("extra_sched"):
             # a hand-written environment schedule for a situation the enumerated ones do not reach
             specs.append(dict(base, mode="sched", sched=ent["extra_sched"], id=f"{gid}:x", seed=1, close=True))
